@@ -13,7 +13,8 @@ State model (ghost):
     Schemas       = known by `reg`, the set of ops whose inline classes it holds
 Endpoint.from_data / add_parameters / sort_parameters enter by summaries (their own contracts are elsewhere): each may fail
 (ParseError) or succeed; the Schemas they return holds at least what the one they were given held, and after a successful
-Endpoint.from_data also the op itself.
+Endpoint.from_data also the op itself.  add_parameters / sort_parameters REQUIRE an Endpoint (checked at the call site: the
+real functions read attributes a ParseError does not have), so a caller that forwards a failed step raises (C06).
 
 The loop over `methods` (a list of eight known strings) is executed by its invariant as well (one generic iteration with a
 symbolic method name instead of 8 unrolled ones with 3^8 outcomes).
@@ -210,8 +211,15 @@ def from_data_inductive_contract():
                 return STuple([mk_endpoint(op), grown(I2, k["schemas"], op), SOpaque("parameters", cls=object)])
             return STuple([mk_error(op, "fatal"), grown(I2, k["schemas"]), SOpaque("parameters", cls=object)])
 
+        def need_endpoint(I2, ep, who):
+            # precondition of the two later steps (checked at the call site): the argument is an Endpoint -- the real
+            # functions read attributes a ParseError does not have
+            if getattr(ep, "ghost_kind", None) != "endpoint":
+                I2.raise_(AttributeError, f"{who} called with something that is not an Endpoint")
+
         def add_parameters(I2, a, k):
             ep = k["endpoint"]
+            need_endpoint(I2, ep, "Endpoint.add_parameters")
             if not isinstance(k["schemas"], _Schemas):
                 raise Unsupported("Endpoint.add_parameters called with something else than the threaded schemas")
             if I2.branch_free():
@@ -220,6 +228,7 @@ def from_data_inductive_contract():
 
         def sort_parameters(I2, a, k):
             ep = k["endpoint"]
+            need_endpoint(I2, ep, "Endpoint.sort_parameters")
             if I2.branch_free():
                 return mk_endpoint(ep.ghost_op)
             return mk_error(ep.ghost_op, "fatal")
@@ -316,4 +325,4 @@ def from_data_inductive_contract():
                statement="the Schemas returned holds everything the initial one held and what every kept operation registered",
                props=["C08", "C07"]),
     ]
-    return FnContract(Q, [Case("any-number-of-paths-and-operations", make, clauses, raises=(), props=["C07", "C08"])])
+    return FnContract(Q, [Case("any-number-of-paths-and-operations", make, clauses, raises=(), props=["C07", "C08", "C06"])])
